@@ -111,6 +111,17 @@ def run(ctx):
                 raise vlib.ToolError("mismatch did not reproduce: %s" % mm)
         os.remove(r["out"])
 
+    # (2b) the code table that every module takes from Codes.tla, against src/codes/codes.go (check lists, categories, documentation pages)
+    rc = ctx.tlc("MCCodes", "SPECIFICATION Spec\nCHECK_DEADLOCK FALSE\n", label="c16_codes", collect_emit=False, count=False)
+    with open(rc["out"]) as f:
+        pc = subprocess.run([vh, "codes-check"], stdin=f, stdout=subprocess.PIPE, stderr=subprocess.PIPE, text=True)
+    if pc.returncode not in (0, 1):
+        raise vlib.ToolError("codes-check failed: " + (pc.stderr or pc.stdout)[-600:])
+    cres = json.loads(pc.stdout)
+    for m in (cres["mismatches"] or [])[:3]:
+        if len(ctx.violations) < 3:
+            ctx.violation("code table: " + m, {"kind": "codes", "mismatch": m})
+
     # (3) insertion order explored inside TLC as well (no emission)
     ctx.tlc("MCIgnoreSet", cfg(3 if thorough else 2, False, False), label="c16_orders", timeout=1500)
 
